@@ -574,7 +574,7 @@ def mutate(r, kind, text):
         junk = [b"hello world", b"From: someone", b"", b"begin", b"begin 64 x", b"begin-base64 644"]
         return nl.join(r.sample(junk, r.randrange(1, 4)) + lines) + nl
     if k == 2:
-        tail = r.choice([b"trailing garbage\n", b"x\ny\n", b"\n\n", b"\x00\x00\x00", b"line\n\xff\xfe", b"end\n", b"====\n"])
+        tail = r.choice([b"trailing garbage\n", b"x\ny\n", b"\n\n", b"more", b"end", b"\x00\x00\x00", b"line\n\xff\xfe", b"end\n", b"====\n"])
         return text + tail
     if k == 3 and body:
         i = r.choice(body)
@@ -591,9 +591,9 @@ def mutate(r, kind, text):
         lines[i] = bytes(l)
         return nl.join(lines) + nl
     if k == 5:
-        # cut at a line boundary: an unterminated last line makes the real filter call
-        # memcpy(dst, NULL, 0) at archive_read_support_filter_uu.c:502 (UBSan stops the harness)
-        return nl.join(lines[:r.randrange(1, len(lines) + 1)]) + nl
+        if r.random() < .5:
+            return nl.join(lines[:r.randrange(1, len(lines) + 1)]) + nl      # cut at a line boundary
+        return text[:r.randrange(len(text) + 1)]                              # cut anywhere (unterminated last line)
     if k == 6:
         return nl.join(lines[:-1]) + nl
     if k == 7:
@@ -736,9 +736,7 @@ def run(rep):
     rep.assumptions += [
         "the client write callback accepts every block whole (the model of archive_write_client_write assumes it)",
         "uu decoder model is a whole-stream model: window (read block) dependent behaviour of uudecode_filter_read is not "
-        "modelled (list at uu_loop in coq/Codec/CodecDefs.v); mutated streams are therefore read in ONE block, and only "
-        "streams whose last line is terminated are generated (an unterminated last line makes the real filter call "
-        "memcpy(dst, NULL, 0), archive_read_support_filter_uu.c:502, which UBSan reports)",
+        "modelled (list at uu_loop in coq/Codec/CodecDefs.v); mutated streams are therefore read in ONE block",
         "zlib, bzip2, liblzma, zstd, lz4 and the LZW compress code are not modelled: for them only the spec-level oracle "
         "(real writer -> real reader) and the abstract drive-loop / member-concatenation theorems apply",
         "readers forced with archive_read_append_filter are not part of the oracle (compress: NULL upstream dereference in "
